@@ -12,12 +12,16 @@
   The two things a one-line Rust edit can flip — the nesting check and the capacity rule — are
   parameters (`Params`) whose values are EXTRACTED from the Rust source (Generated/CostAbi.lean).
   Recursion is structural on `room` = MAX_DECODE_NESTING_DEPTH − depth: no fuel when the nesting
-  check is present.  Import-free.
+  check is present.  The float canonicality predicates (bit patterns) are those of the functional
+  model Model/Codec/Cbor.lean (C12), not a second copy; Lemmas/CostCborTie.lean proves that the
+  result class computed here is the functional decoder's.
 -/
 import EchoVerif.Model.Basic
+import EchoVerif.Model.Codec.Cbor
 
 namespace EchoVerif.CostCbor
 open EchoVerif
+open EchoVerif.Cbor (widen16 widen32 isNan floatInt? fits16 fits32 canonNan16)
 
 /-- How a container arm sizes its `Vec::with_capacity`. -/
 inductive CapRule
@@ -74,111 +78,31 @@ theorem shorter_iff : ∀ (bs : Bytes) (n : Nat), shorter bs n = true ↔ bs.len
   | [], n + 1 => by simp [shorter]
   | _ :: t, n + 1 => by simp [shorter, shorter_iff t n]
 
-/-! ### UTF-8 (`core::str::from_utf8`) -/
+/-! ### UTF-8 (`core::str::from_utf8`): the functional model's automaton (Unicode Table 3-7) -/
 
-@[inline] def isCont (b : UInt8) : Bool := 0x80 ≤ b && b ≤ 0xBF
-@[inline] def inR (lo hi b : UInt8) : Bool := lo ≤ b && b ≤ hi
+/-- `str::from_utf8(data).is_ok()` — `Cbor.utf8Valid`, shared with C12 (tail-recursive when compiled:
+    1 MiB strings are fine) -/
+@[inline] def validUtf8 (bs : Bytes) : Bool := Cbor.utf8Valid bs
 
-def validUtf8 : Bytes → Bool
-  | [] => true
-  | b0 :: rest =>
-    if b0 < 0x80 then validUtf8 rest
-    else if inR 0xC2 0xDF b0 then
-      match rest with
-      | b1 :: r => if isCont b1 then validUtf8 r else false
-      | _ => false
-    else if inR 0xE0 0xEF b0 then
-      match rest with
-      | b1 :: b2 :: r =>
-        let ok1 := if b0 = 0xE0 then inR 0xA0 0xBF b1 else if b0 = 0xED then inR 0x80 0x9F b1 else isCont b1
-        if ok1 && isCont b2 then validUtf8 r else false
-      | _ => false
-    else if inR 0xF0 0xF4 b0 then
-      match rest with
-      | b1 :: b2 :: b3 :: r =>
-        let ok1 := if b0 = 0xF0 then inR 0x90 0xBF b1 else if b0 = 0xF4 then inR 0x80 0x8F b1 else isCont b1
-        if ok1 && isCont b2 && isCont b3 then validUtf8 r else false
-      | _ => false
-    else false
+/-! ### Floats as bit patterns: `Cbor.widen16/32` (exact widening), `Cbor.floatInt?`
+(`is_exact_int`: finite, integral, inside [-2^63, 2^64)), `Cbor.fits16/32` (`can_fit_f16/f32`) -/
 
-/-! ### Floats as bit patterns (`half::f16`, `f32`, `f64`) -/
-
-/-- exact widening f16 → f64 (NaN payload kept in the high mantissa bits) -/
-def f16to64 (h : Nat) : Nat :=
-  let s := h / 32768
-  let e := h / 1024 % 32
-  let m := h % 1024
-  if e = 31 then s * 2 ^ 63 + 2047 * 2 ^ 52 + m * 2 ^ 42
-  else if e = 0 then
-    if m = 0 then s * 2 ^ 63
-    else
-      let k := Nat.log2 m
-      s * 2 ^ 63 + (k + 999) * 2 ^ 52 + (m - 2 ^ k) * 2 ^ (52 - k)
-  else s * 2 ^ 63 + (e + 1008) * 2 ^ 52 + m * 2 ^ 42
-
-/-- exact widening f32 → f64 -/
-def f32to64 (b : Nat) : Nat :=
-  let s := b / 2 ^ 31
-  let e := b / 2 ^ 23 % 256
-  let m := b % 2 ^ 23
-  if e = 255 then s * 2 ^ 63 + 2047 * 2 ^ 52 + m * 2 ^ 29
-  else if e = 0 then
-    if m = 0 then s * 2 ^ 63
-    else
-      let k := Nat.log2 m
-      s * 2 ^ 63 + (k + 874) * 2 ^ 52 + (m - 2 ^ k) * 2 ^ (52 - k)
-  else s * 2 ^ 63 + (e + 896) * 2 ^ 52 + m * 2 ^ 29
-
-def f64exp (x : Nat) : Nat := x / 2 ^ 52 % 2048
-def f64man (x : Nat) : Nat := x % 2 ^ 52
-def f64nan (x : Nat) : Bool := f64exp x = 2047 && f64man x ≠ 0
-def f64inf (x : Nat) : Bool := f64exp x = 2047 && f64man x = 0
-
-/-- `is_exact_int`: finite, `fract() == 0`, and `(f as i128) as f64 == f`
-    (the saturating cast makes ±2^127 the last accepted magnitudes). -/
-def isExactInt (x : Nat) : Bool :=
-  let e := f64exp x
-  let m := f64man x
-  if e = 2047 then false
-  else if e = 0 then m = 0
-  else if e < 1023 then false
-  else
-    let E := e - 1023
-    let integral := E ≥ 52 || m % 2 ^ (52 - E) = 0
-    integral && (E < 127 || (E = 127 && m = 0))
-
-/-- `can_fit_f16`: NaN, or exactly representable as a binary16 -/
-def canFitF16 (x : Nat) : Bool :=
-  let e := f64exp x
-  let m := f64man x
-  if e = 2047 then true
-  else if e = 0 then m = 0
-  else if 1009 ≤ e && e ≤ 1038 then m % 2 ^ 42 = 0
-  else if 999 ≤ e && e ≤ 1008 then (2 ^ 52 + m) % 2 ^ (1051 - e) = 0
-  else false
-
-/-- `can_fit_f32`: NaN, or exactly representable as a binary32 -/
-def canFitF32 (x : Nat) : Bool :=
-  let e := f64exp x
-  let m := f64man x
-  if e = 2047 then true
-  else if e = 0 then m = 0
-  else if 897 ≤ e && e ≤ 1150 then m % 2 ^ 29 = 0
-  else if 874 ≤ e && e ≤ 896 then (2 ^ 52 + m) % 2 ^ (926 - e) = 0
-  else false
-
-/-- arm `7 => match info { 25 | 26 | 27 }` after the payload was read (`w` = payload bytes) -/
+/-- arm `7 => match info { 25 | 26 | 27 }` after the payload was read (`w` = payload bytes);
+    the same tests, in the same order, as `Cbor.decFloat` -/
 def floatCheck (w : Nat) (payload : Nat) : Option Err :=
   if w = 2 then
-    if isExactInt (f16to64 payload) then some .floatShouldBeInt else none
+    let f := widen16 payload
+    -- the encoder writes every NaN as f16 0x7e00; other NaN payloads are not canonical
+    if isNan f && payload != canonNan16 then some .nonCanonFloat
+    else if (floatInt? f).isSome then some .floatShouldBeInt else none
   else if w = 4 then
-    let f := f32to64 payload
-    if isExactInt f then some .floatShouldBeInt
-    else if canFitF16 f then some .nonCanonFloat else none
+    let f := widen32 payload
+    if (floatInt? f).isSome then some .floatShouldBeInt
+    else if fits16 f then some .nonCanonFloat else none
   else
-    if isExactInt payload then some .floatShouldBeInt
-    else if canFitF16 payload then some .nonCanonFloat
-    else if canFitF32 payload then some .nonCanonFloat else none
+    if (floatInt? payload).isSome then some .floatShouldBeInt
+    else if fits16 payload then some .nonCanonFloat
+    else if fits32 payload then some .nonCanonFloat else none
 
 /-! ### Heads -/
 
